@@ -20,9 +20,15 @@ import time
 import traceback
 from pathlib import Path
 
+import contextlib
+import io
+
 import numpy as np
 
 from .. import common as c
+
+with contextlib.redirect_stdout(io.StringIO()):      # polyply prints a numba hint on import; import once, before any fork
+    import polyply  # noqa: F401
 
 PROP = "C18"
 # known-finding signature -> deviation flag of Select.tla that models it
@@ -932,6 +938,7 @@ def run(tier):
             robs[i] = o
     recs = [{"c": rc[i], "o": robs[i]} for i in range(nrand)]
     v = judge(ck, recs, "judge_random", flags)
+    rverdict = dict(v)
     nskip = sum(1 for x in v.values() if x == "skip")
     ck.extra["random_inputs"] = {"generated": nrand, "outside_domain_skipped": nskip}
     if nskip > 0.6 * nrand:
@@ -967,25 +974,24 @@ def run(tier):
     ck.extra["full_runs"]["random_judged"] = len(frecs)
     # ---------------------------------------------------------------- 5. binding demonstration
     ck.stage("binding demonstration")
-    good = [r for tid, r in enumerate(recs, 1) if judge_ok(r) and any(any(t for t in m) for m in r["o"]["geom"]) and r["o"]["err"] == ""][:4]
+    good = [r for tid, r in enumerate(recs, 1) if rverdict.get(tid) == "ok" and any(any(t for t in m) for m in r["o"]["geom"]) and "hand" in r["o"]["ran"]][:4]
     if len(good) < 2:
-        raise c.MachineryError("binding demonstration: no suitable record")
-    demo = json.loads(json.dumps([{"c": r["c"], "o": r["o"]} for r in good]))
-    for m in demo[0]["o"]["geom"]:          # drop one recorded restraint tag
-        hit = [t for t in m if t]
-        if hit:
-            hit[0].pop()
-            break
-    dv = judge(ck, demo, "binding_demo", flags, count=False)
-    if dv[1] == "ok" or dv[1] == "skip" or dv[1][0] != "rejected" or any(dv[t] != "ok" for t in range(2, len(demo) + 1)):
-        raise c.MachineryError("binding demonstration failed: %s" % (dv,))
-    ck.extra["binding_demo"] = "record with one recorded restraint tag removed rejected by SelTrace (conjunct '%s'), untouched records accepted" % dv[1][1]
+        if not ck.violations:
+            raise c.MachineryError("binding demonstration: no suitable record")
+        ck.note("binding demonstration skipped: the code under test left no accepted record with a restraint tag")
+    else:
+        demo = json.loads(json.dumps([{"c": r["c"], "o": r["o"]} for r in good]))
+        for m in demo[0]["o"]["geom"]:          # drop one recorded restraint tag
+            hit = [t for t in m if t]
+            if hit:
+                hit[0].pop()
+                break
+        dv = judge(ck, demo, "binding_demo", flags, count=False)
+        if dv[1] == "ok" or dv[1] == "skip" or dv[1][0] != "rejected" or any(dv[t] != "ok" for t in range(2, len(demo) + 1)):
+            raise c.MachineryError("binding demonstration failed: %s" % (dv,))
+        ck.extra["binding_demo"] = "record with one recorded restraint tag removed rejected by SelTrace (conjunct '%s'), untouched records accepted" % dv[1][1]
     ck.exhaustive = True
     return ck.finish()
-
-
-def judge_ok(r):
-    return "known" not in r and r["o"].get("err", "") == "" and "hand" in r["o"]["ran"]
 
 
 def replay(path):
